@@ -358,66 +358,124 @@ Proof.
   destruct b; simpl; [|discriminate]. intros H. rewrite IH by exact H. reflexivity.
 Qed.
 
-Definition pay_lens_ok (n : nat) (s : list (key * list (list (option obs)))) : Prop :=
-  forall k a, find k s = Some a -> length a = 5%nat /\ Forall (fun x => length x = n) a.
+(* which of the four axes (time, depth, lat, lon) the run's streams have: an absent axis arrives as
+   an empty array in EVERY ContextResult *)
+Definition wf_axis (present : bool) (cnt : nat) (a : list obs) : Prop :=
+  if present then length a = cnt else a = [].
 
-Definition wf_ctx (n : nat) (r : ctxres) : Prop :=
-  length (r_mask r) = n /\ length (r_pay r) = 5%nat /\
-  Forall (fun a => length a = count_true (r_mask r)) (r_pay r).
+Definition wf_ctx (shape : list bool) (n : nat) (r : ctxres) : Prop :=
+  length (r_mask r) = n /\
+  match r_pay r with
+  | d :: axes => length d = count_true (r_mask r) /\ Forall2 (fun p a => wf_axis p (count_true (r_mask r)) a) shape axes
+  | [] => False
+  end.
 
-(* with every axis array present the payload pass never raises *)
-Lemma pay_fold_ok n rs : forall s,
-  Forall (wf_ctx n) rs -> pay_lens_ok n s ->
-  exists p, fold_left pay_step rs (Some s) = Some p /\ pay_lens_ok n p.
+(* accumulators: data has n rows; a present axis has n rows; an absent one has n (masked) or 0
+   (replaced by the empty array) rows *)
+Definition acc_ok (present : bool) (n : nat) (a : list (option obs)) : Prop :=
+  if present then length a = n else True.
+
+Definition pay_lens_ok (shape : list bool) (n : nat) (s : list (key * list (list (option obs)))) : Prop :=
+  forall k a, find k s = Some a ->
+    match a with d :: axes => length d = n /\ Forall2 (fun p x => acc_ok p n x) shape axes | [] => False end.
+
+Lemma place_data m v old :
+  length v = count_true m -> length old = length m ->
+  exists x, place false m v old = Some x /\ length x = length m.
+Proof.
+  intros Hv Ho. unfold place. simpl andb. unfold scatter_ok. rewrite Hv, Nat.eqb_refl, Ho, Nat.eqb_refl. simpl.
+  eexists. split; [reflexivity|]. rewrite scatter_length. exact Ho.
+Qed.
+
+Lemma place_axis present m v old :
+  wf_axis present (count_true m) v -> acc_ok present (length m) old ->
+  exists x, place true m v old = Some x /\ acc_ok present (length m) x.
+Proof.
+  unfold wf_axis, acc_ok, place. destruct present.
+  - intros Hv Ho. destruct v as [|v0 v'].
+    + simpl. eexists. split; [reflexivity|exact Ho].
+    + simpl is_nil. simpl andb. unfold scatter_ok. rewrite Hv, Nat.eqb_refl, Ho, Nat.eqb_refl. simpl.
+      eexists. split; [reflexivity|]. rewrite scatter_length. exact Ho.
+  - intros -> _. simpl. eexists. split; [reflexivity|exact I].
+Qed.
+
+Lemma place_all_axes shape m : forall axes olds,
+  Forall2 (fun p a => wf_axis p (count_true m) a) shape axes ->
+  Forall2 (fun p x => acc_ok p (length m) x) shape olds ->
+  exists r, place_all true m axes olds = Some r /\ Forall2 (fun p x => acc_ok p (length m) x) shape r.
+Proof.
+  induction shape as [|p shape IH]; intros axes olds Ha Ho; inversion Ha; inversion Ho; subst.
+  - exists []. split; [reflexivity|constructor].
+  - match goal with H1 : wf_axis p _ ?v, H2 : acc_ok p _ ?o |- _ =>
+      destruct (place_axis p m v o H1 H2) as [x [Ex Hx]] end.
+    match goal with H1 : Forall2 _ shape ?l1, H2 : Forall2 _ shape ?l2 |- _ =>
+      destruct (IH l1 l2 H1 H2) as [r [Er Hr]] end.
+    simpl. rewrite Ex, Er. eexists. split; [reflexivity|]. constructor; assumption.
+Qed.
+
+Lemma replaced_axes_ok shape cnt n : forall axes,
+  cnt = n -> Forall2 (fun p a => wf_axis p cnt a) shape axes ->
+  Forall2 (fun p (x : list (option obs)) => acc_ok p n x) shape (map (map Some) axes).
+Proof.
+  intros axes E H. induction H as [|p a shape' axes' Hw Hrest IH]; simpl; constructor; [|exact IH].
+  unfold acc_ok. destruct p; [|exact I]. rewrite map_length. unfold wf_axis in Hw. rewrite Hw. exact E.
+Qed.
+
+Lemma fresh_axes_ok shape cnt n : forall axes,
+  Forall2 (fun p a => wf_axis p cnt a) shape axes ->
+  Forall2 (fun p (x : list (option obs)) => acc_ok p n x) shape
+          (map (fun _ : list obs => tab n (fun _ => @None obs)) axes).
+Proof.
+  intros axes H. induction H as [|p a shape' axes' Hw Hrest IH]; simpl; constructor; [|exact IH].
+  unfold acc_ok. destruct p; [|exact I]. apply tab_length.
+Qed.
+
+(* with the axes consistently present or absent the payload pass never raises *)
+Lemma pay_fold_ok shape n rs : forall s,
+  Forall (wf_ctx shape n) rs -> pay_lens_ok shape n s ->
+  exists p, fold_left pay_step rs (Some s) = Some p /\ pay_lens_ok shape n p.
 Proof.
   induction rs as [|r rs IH]; intros s Hwf Hs; [exists s; auto|].
-  inversion Hwf as [|? ? Hr Hrs]; subst. destruct Hr as [Hm [H5 Hp]].
+  inversion Hwf as [|? ? Hr Hrs]; subst. destruct Hr as [Hm Hp].
+  destruct (r_pay r) as [|d axes] eqn:Epay; [contradiction|]. destruct Hp as [Hd Hax].
   simpl fold_left. unfold pay_step at 1. fold pay_step.
   destruct (last_key r) as [k|]; [|apply IH; assumption].
   destruct (all_true (r_mask r)) eqn:Eall.
   - apply IH; [exact Hrs|].
     intros k' a. destruct (key_eqb_spec k' k) as [->|N].
-    + rewrite find_upd_same. intros E. injection E as <-. rewrite map_length. split; [exact H5|].
-      apply Forall_forall. intros x Hx. apply in_map_iff in Hx. destruct Hx as [y [<- Hy]].
-      rewrite map_length. rewrite Forall_forall in Hp. rewrite (Hp y Hy).
-      rewrite count_true_all by exact Eall. exact Hm.
+    + rewrite find_upd_same. intros E. injection E as <-. rewrite Epay. simpl map.
+      split; [rewrite map_length, Hd, (count_true_all _ Eall); exact Hm|].
+      apply (replaced_axes_ok shape (count_true (r_mask r))); [|exact Hax].
+      rewrite (count_true_all _ Eall). exact Hm.
     + rewrite find_upd_other by exact N. apply Hs.
   - set (old := match find k s with
                 | Some a => a
                 | None => map (fun _ => tab (length (r_mask r)) (fun _ => None)) (r_pay r)
                 end).
-    assert (Hold : length old = 5%nat /\ Forall (fun x => length x = n) old).
+    assert (Hold : match old with o :: olds => length o = n /\ Forall2 (fun p x => acc_ok p n x) shape olds | [] => False end).
     { unfold old. destruct (find k s) as [a|] eqn:E; [eapply Hs; eauto|].
-      rewrite map_length. split; [exact H5|]. apply Forall_forall. intros x Hx.
-      apply in_map_iff in Hx. destruct Hx as [y [<- _]]. rewrite tab_length. exact Hm. }
-    destruct Hold as [Ho5 HoN].
-    assert (C : (forallb (scatter_ok (r_mask r)) (r_pay r)
-                 && forallb (fun a => Nat.eqb (length a) (length (r_mask r))) old
-                 && Nat.eqb (length old) (length (r_pay r)))%bool = true).
-    { rewrite !andb_true_iff. repeat split.
-      - apply forallb_forall. intros a Ha. rewrite Forall_forall in Hp. unfold scatter_ok.
-        rewrite (Hp a Ha), Nat.eqb_refl. reflexivity.
-      - apply forallb_forall. intros a Ha. rewrite Forall_forall in HoN. rewrite (HoN a Ha), Hm.
-        apply Nat.eqb_refl.
-      - rewrite Ho5, H5. reflexivity. }
-    rewrite C. apply IH; [exact Hrs|].
+      rewrite Epay. simpl map. split; [rewrite tab_length; exact Hm|].
+      rewrite Hm. apply (fresh_axes_ok shape (count_true (r_mask r))). exact Hax. }
+    destruct old as [|o olds]; [contradiction|]. destruct Hold as [Ho Holds].
+    rewrite Epay. simpl place_all.
+    destruct (place_data (r_mask r) d o Hd) as [x [Ex Hx]]; [rewrite Ho, Hm; reflexivity|].
+    rewrite <- Hm in Holds.
+    destruct (place_all_axes shape (r_mask r) axes olds Hax Holds) as [rr [Er Hrr]].
+    rewrite Ex, Er. apply IH; [exact Hrs|].
     intros k' a. destruct (key_eqb_spec k' k) as [->|N].
-    + rewrite find_upd_same. intros E. injection E as <-. rewrite map_length, combine_length, H5, Ho5.
-      split; [reflexivity|]. apply Forall_forall. intros x Hx. apply in_map_iff in Hx.
-      destruct Hx as [[v o] [<- Hin]]. simpl. rewrite scatter_length.
-      apply in_combine_r in Hin. rewrite Forall_forall in HoN. apply HoN. exact Hin.
+    + rewrite find_upd_same. intros E. injection E as <-. split; [rewrite Hx; exact Hm|]. rewrite <- Hm. exact Hrr.
     + rewrite find_upd_other by exact N. apply Hs.
 Qed.
 
-Theorem collect_list_ok n rs :
-  Forall (wf_write n) (writes_of rs) -> Forall (wf_ctx n) rs ->
+Theorem collect_list_ok shape n rs :
+  Forall (wf_write n) (writes_of rs) -> Forall (wf_ctx shape n) rs ->
   exists f p, collect_list_model rs = CList f p /\
     map fst f = first_seen (map write_key (writes_of rs)) [] /\
     forall k, find k f =
       if mentions k (writes_of rs) then Some (tab n (flag_spec None (writes_of rs) k)) else None.
 Proof.
   intros Hw Hc. destruct (collect_flags_correct None n rs Hw) as [f [Hf [Hk Hfind]]].
-  destruct (pay_fold_ok n rs [] Hc) as [p [Hp _]]; [intros k a E; discriminate|].
+  destruct (pay_fold_ok shape n rs [] Hc) as [p [Hp _]]; [intros k a E; discriminate|].
   exists f, p. unfold collect_list_model, collect_pay. rewrite Hf, Hp. auto.
 Qed.
 
